@@ -43,11 +43,22 @@ func (w *CrashWorld) decide(kind, path string, n int) DiskDecision {
 	}
 	for i := range w.prog.Faults {
 		f := &w.prog.Faults[i]
-		if w.fired[i] || f.Site != "disk" || f.AfterStep > w.stepIdx || f.AfterStep >= len(w.stepStart) {
+		if w.fired[i] || f.Site != "disk" {
 			continue
 		}
-		if idx != w.stepStart[f.AfterStep]+f.Hit {
-			continue
+		if f.AfterStep < 0 {
+			// first start: the Hit-th disk operation of the very first open
+			// (creation of the file, migration)
+			if w.stepIdx >= 0 || idx != f.Hit {
+				continue
+			}
+		} else {
+			if f.AfterStep > w.stepIdx || f.AfterStep >= len(w.stepStart) {
+				continue
+			}
+			if idx != w.stepStart[f.AfterStep]+f.Hit {
+				continue
+			}
 		}
 		w.fired[i] = true
 		w.Res.fault(f.Action)
@@ -287,8 +298,29 @@ func RunCrashProgram(p *Program) *Result {
 	sw.Clock.Install()
 	sw.Model = NewModel(cfg)
 	w := &CrashWorld{StoreWorld: sw, prog: p, fired: map[int]bool{}, base: base}
-	if err := w.open(); err != nil {
-		return &Result{Trouble: "open store: " + err.Error()}
+	w.stepIdx = -1
+	err = w.open()
+	if err == nil {
+		w.Res.probeN("disk.ops.first_start", w.diskOps())
+	}
+	if err != nil {
+		if w.Disk == nil || !(w.Disk.Dead() || w.faultInStep) {
+			return &Result{Trouble: "open store: " + err.Error()}
+		}
+		// the process died (or met a disk error) while it started for the first
+		// time - file creation, migration: the next start has to succeed on
+		// whatever that left behind
+		w.Res.probe("crash.during.first_start")
+		w.Res.logf("first start failed after an injected fault: %s", errShort(err))
+		action, seed := "crash.kill", int64(0)
+		if w.pending != nil {
+			action, seed = w.pending.Action, w.pending.ImgSeed
+		}
+		w.faultInStep = false
+		w.restartLoop(action, seed, false)
+		if w.Res.Trouble != "" || w.Store == nil {
+			return w.Res
+		}
 	}
 	defer func() {
 		if w.closeFn != nil {
@@ -451,6 +483,30 @@ func GenCrashProgram(t *rapid.T) *Program {
 		f.ImgSeed = int64(rapid.IntRange(0, 1<<20).Draw(t, "f.imgseed"))
 		p.Faults = append(p.Faults, f)
 	}
+	if rapid.IntRange(0, 5).Draw(t, "bulk?") == 0 {
+		// a batch of several hundred messages (one publish call): hundreds of
+		// disk operations, with a fault somewhere inside
+		at := rapid.IntRange(0, len(p.Steps)).Draw(t, "bulk.at")
+		st := Step{Op: "enqueue_batch", Bulk: rapid.SampledFrom([]int{129, 150, 257, 300}).Draw(t, "bulk.n"), Items: []EnvSpec{{ID: "new", Route: "/r0", Target: "pull"}}}
+		p.Steps = append(p.Steps[:at], append([]Step{st}, p.Steps[at:]...)...)
+		for i := range p.Faults {
+			if p.Faults[i].AfterStep >= at {
+				p.Faults[i].AfterStep++
+			}
+		}
+		if rapid.IntRange(0, 3).Draw(t, "bulk.fault?") != 0 {
+			p.Faults = append(p.Faults, Fault{Site: "disk", AfterStep: at, Hit: rapid.IntRange(0, 700).Draw(t, "bulk.hit"),
+				Action:  rapid.SampledFrom([]string{"crash.kill", "crash.kill", "crash.powerloss", "eio", "full"}).Draw(t, "bulk.action"),
+				ImgSeed: int64(rapid.IntRange(0, 1<<20).Draw(t, "bulk.imgseed"))})
+		}
+	}
+	if rapid.IntRange(0, 7).Draw(t, "first_start?") == 0 {
+		// the process dies (or meets a disk error) while it starts for the very
+		// first time: file creation and schema migration
+		p.Faults = append(p.Faults, Fault{Site: "disk", AfterStep: -1, Hit: rapid.IntRange(0, 80).Draw(t, "fs.hit"),
+			Action:  rapid.SampledFrom([]string{"crash.kill", "crash.kill", "crash.powerloss", "eio"}).Draw(t, "fs.action"),
+			ImgSeed: int64(rapid.IntRange(0, 1<<20).Draw(t, "fs.imgseed"))})
+	}
 	return p
 }
 
@@ -462,7 +518,7 @@ func init() {
 		NonTrivial: func(p *Program, r *Result) bool {
 			return r.Ops >= 3 && (r.Faults["crash.kill"]+r.Faults["crash.powerloss"] > 0 || hasCrashStep(p))
 		},
-		Rule:  "store-level: seeded enqueue/batch/dequeue/lease/checkpoint histories on SQLiteStore over the simulated disk, with kill and power-loss crashes and EIO/ENOSPC/short-write faults placed at the k-th disk operation inside an operation; after each restart: store opens, integrity_check ok, counters = rows, listing equals the model (acknowledged operations certain, the one in flight in doubt: all or nothing), and with faults off everything unsettled is offered again; non-trivial = >=3 operations and >=1 crash; distinct = (op-kind sequence, fired fault kinds)",
+		Rule:  "store-level: seeded enqueue/batch/dequeue/lease/checkpoint histories on SQLiteStore over the simulated disk, with kill and power-loss crashes and EIO/ENOSPC/short-write faults placed at the k-th disk operation inside an operation or inside the very first start (file creation, schema migration); after each restart: store opens, integrity_check ok, counters = rows, listing equals the model (acknowledged operations certain, the one in flight in doubt: all or nothing), and with faults off everything unsettled is offered again; non-trivial = >=3 operations and >=1 crash; distinct = (op-kind sequence, fired fault kinds)",
 		Level: "fault_enumeration",
 		RealStub: map[string]string{
 			"queue.SQLiteStore + modernc SQLite (pager, WAL, recovery)": "real",
@@ -482,6 +538,7 @@ func init() {
 		quick, thorough int
 	}{
 		{"C05", "crash/restart part: the W-crash histories (SQLiteStore on the simulated disk, kill / power loss / disk faults at the k-th disk operation) judged for redelivery: after every restart each dequeue still returns min(batch, ready) with leases of the dead process expiring on the simulated clock, delays are not shortened, and after the last restart with faults off every unsettled message is offered again", 1500, 80000},
+		{"C15", "crash part: batches of 1-4 and of 129-300 messages (one EnqueueBatch, as a publish call makes) on SQLiteStore over the simulated disk with a kill, power loss or disk error at the k-th disk operation inside the batch; after the restart, or after the refused call, the batch is there completely or not at all", 1500, 80000},
 		{"C07", "restart part: payload bytes and header maps of every message listed after a crash recovery equal what was enqueued (W-crash histories with explicit headers; model rule C02.immutable.*)", 1000, 50000},
 	} {
 		c := *base
